@@ -278,9 +278,9 @@ var emitPositions = []emitPos{
 	}, []interface{}{"endpoints", "sharedInbox"}},
 	{"Link.href", func(s string) ap.Item { return &ap.Link{ID: eid, Type: ap.LinkType, Href: ap.IRI(s)} }, []interface{}{"href"}},
 	{"Link.rel", func(s string) ap.Item { return &ap.Link{ID: eid, Type: ap.LinkType, Href: eid, Rel: ap.IRI(s)} }, []interface{}{"rel"}},
-	{"Link.hrefLang", func(s string) ap.Item {
+	{"Link.hreflang", func(s string) ap.Item {
 		return &ap.Link{ID: eid, Type: ap.LinkType, Href: eid, HrefLang: ap.LangRef(s)}
-	}, []interface{}{"hrefLang"}},
+	}, []interface{}{"hreflang"}},
 	{"Link.name", func(s string) ap.Item { return &ap.Link{ID: eid, Type: ap.MentionType, Href: eid, Name: nlvOf(s)} }, []interface{}{"name"}},
 	{"Place.units", func(s string) ap.Item { return &ap.Place{ID: eid, Type: ap.PlaceType, Units: s} }, []interface{}{"units"}},
 	{"Tombstone.formerType", func(s string) ap.Item {
